@@ -160,7 +160,10 @@ def eval_case(case):
         rng = np.random.default_rng(case['rseed'])
         _, H, Lx, Lz, span = oracle(code)
         m, k = H.shape[0], Lx.shape[0]
-        rows = [np.eye(2 * n, dtype=np.uint8), (H % 2).astype(np.uint8),
+        basis = np.eye(2 * n, dtype=np.uint8)
+        if case.get('light'):
+            basis = basis[rng.choice(2 * n, size=min(2 * n, 40), replace=False)]
+        rows = [basis, (H % 2).astype(np.uint8),
                 Lx.astype(np.uint8), Lz.astype(np.uint8)]
         prods = []
         for _ in range(case.get('n_random', 60)):
@@ -222,7 +225,7 @@ def small_cases(max_n, chunk=4 ** 6):
     return out
 
 
-def big_cases(max_L, max_L_2d, max_color, max_n, seed, n_random):
+def big_cases(max_L, max_L_2d, max_color, max_n, seed, n_random, hollow_L=6):
     out = []
     for i, c in enumerate(domain.all_code_cases(max_L, max_L_2d, max_color,
                                                 max_n=max_n, thin=True)):
@@ -230,6 +233,21 @@ def big_cases(max_L, max_L_2d, max_color, max_n, seed, n_random):
             continue
         out.append(dict(c, kind='big', rseed=seed * 100003 + i,
                         n_random=n_random))
+    # the hollow lattices have size-dependent hole geometry in every
+    # direction: all (also non-cubic) sizes up to the hollow bound
+    from checks.c01_valid_code import case_sig
+    have = {(c['cls'], tuple(c['size'])) for c in out}
+    j = len(out)
+    for cls in ('HollowRhombicCode', 'HollowPlanar3DCode'):
+        for size in domain.sizes(cls, hollow_L):
+            c = domain.code_case(cls, size)
+            if (cls, size) in have or case_sig(c).get('slab_hole'):
+                continue
+            if domain.n_estimate(cls, size) > 800:
+                continue
+            j += 1
+            out.append(dict(c, kind='big', rseed=seed * 100003 + j, n_random=max(10, n_random // 4),
+                            light=True))
     return out
 
 
